@@ -23,8 +23,8 @@ INNER = P + 'streams::Inner::'
 NOTIFY_ALL = {DS + 'handle_error', DS + 'recv_eof', P + 'streams::Streams::recv_eof', P + 'streams::Streams::handle_error'}
 
 
-def r1_notify_all(ctx):
-    r = ctx.rule('C07.R1', 'PASS', 'every terminal exit of Connection::poll notifies all streams (incl. `?` exits)')
+def r1_notify_all(ctx, rid='C07.R1'):
+    r = ctx.rule(rid, 'PASS', 'every terminal exit of Connection::poll notifies all streams (incl. `?` exits)')
     F = ctx.facts
     f = r.fn(CONN + 'Connection::poll')
     if f:
